@@ -5,7 +5,7 @@
    PARTIAL (static half): Rust's borrow checker is not formalised here; the lifetime half of
    the property is checked by the compile-pass / compile-fail client corpus of the
    correspondence check (DESIGN.md section 7, C04). *)
-From Coq Require Import List NArith Bool.
+From Coq Require Import List NArith Bool Lia.
 From HV Require Import Cursor Scan Model Api Spec Oracle.
 From HV.Proofs Require Import Base EnvOk Refine Entries ZeroCopy.
 Import ListNotations.
